@@ -1391,6 +1391,10 @@ pub fn child18(seed: u64, idx: u64) -> Value {
                     let si = StreamInfo::new(44100, nch, bps).unwrap();
                     post!("Frame", c, |b: &[u8], _bits: usize| {
                         let mut p = flacenc::component::parser::frame::<ByteErr<'_>>(&si, true);
+                        // the parser object has seen a prefix of the frame before (a streaming
+                        // reader retries the same object once more input has arrived)
+                        let _ = p(&b[..b.len() / 2]);
+                        let _ = p(&b[..b.len().saturating_sub(1)]);
                         p(b).ok().map(|(_, x)| (format!("{x:?}"), enc::to_bytes(&x).unwrap_or_default()))
                     });
                 }
@@ -1421,6 +1425,10 @@ pub fn child18(seed: u64, idx: u64) -> Value {
                     let si = StreamInfo::new(44100, hch, hbps).unwrap();
                     post!("Frame", c, |b: &[u8], _bits: usize| {
                         let mut p = flacenc::component::parser::frame::<ByteErr<'_>>(&si, true);
+                        // the parser object has seen a prefix of the frame before (a streaming
+                        // reader retries the same object once more input has arrived)
+                        let _ = p(&b[..b.len() / 2]);
+                        let _ = p(&b[..b.len().saturating_sub(1)]);
                         p(b).ok().map(|(_, x)| (format!("{x:?}"), enc::to_bytes(&x).unwrap_or_default()))
                     });
                 }
